@@ -155,6 +155,7 @@ func cmdCheck(args []string) int {
 		fv.prop = id
 		tg := time.Now()
 		err := fv.verify()
+		fv.finalizeQueries()
 		r := &funcResult{fi: fi, fv: fv, err: err, secs: time.Since(tg).Seconds()}
 		results = append(results, r)
 		if err != nil {
